@@ -96,6 +96,24 @@ Theorem C08_cache_coherent : forall c n0 ini tr sf hs n strat X, run c (init_st 
 Proof. exact cache_coherent. Qed.
 Print Assumptions C08_cache_coherent.
 
+(* nothing ever leaves sampled; a tell - also the tell of a checkpoint by fit_surrogate in the MIDDLE of a history - leaves it exactly
+   as it is; hence everything handed out before a warm start is still known to the duplicate filter after it, whatever follows.
+   (The automaton replays the calls on ONE optimizer state: an implementation that rebuilds the optimizer at fit_surrogate and forgets
+   sampled is rejected as soon as it hands out an old configuration.) *)
+Theorem C08_tell_keeps_sampled : forall c s k cl s' h b, accept c s (Tell k cl) = inl (s', h, b) -> sampled s' = sampled s.
+Proof. exact tell_keeps_sampled. Qed.
+Print Assumptions C08_tell_keeps_sampled.
+
+Theorem C08_sampled_only_grows : forall c tr s sf hs, run c s tr = Some (sf, hs) -> exists l, sampled sf = sampled s ++ l.
+Proof. exact run_sampled_ext. Qed.
+Print Assumptions C08_sampled_only_grows.
+
+Theorem C08_proposed_survive : forall c n0 ini tr1 s1 hs1 tr2 s2 hs2, fixed c = true ->
+  run c (init_st n0 ini) tr1 = Some (s1, hs1) -> Forall (fun h => (h <= 1)%nat) hs1 ->
+  run c s1 tr2 = Some (s2, hs2) -> incl (returned tr1) (sampled s2).
+Proof. exact proposed_survive. Qed.
+Print Assumptions C08_proposed_survive.
+
 (* the precondition is needed: two single asks of the model phase without a tell in between return the same point
    (what CBO did when a tell dropped every result, F11) *)
 Theorem C08_ask_twice_repeats : forall c s n1 st1 cl1 out1 s1 h1 b1 n2 st2 cl2 out2 s2 h2 b2,
